@@ -420,6 +420,13 @@ def _run_batch(prop, tier, base_seed, engine, findings, workdir, t_start):
         # without one a harness error is never success
         if exit_code != 1:
             return 2
+    stuck = sorted(k for k, v in agg['probes'].items()
+                   if v == 0 and k not in engine.irrelevant_probes(prop))
+    if stuck:
+        # not a verdict on the code under test, but a batch that never
+        # reached these branches has not looked where it claims to look
+        print('REACH-WARNING property=%s probes stuck at zero: %s' % (
+            prop, ', '.join(stuck)))
     print('%s %s: %d runs, %d steps, %.0f simulated s, %d distinct states, '
           '%.1fs wall, exit %d' % (prop, tier, agg['runs'], agg['steps'],
                                    agg['sim_s'], len(all_fps), wall,
